@@ -720,6 +720,30 @@ def baseline_attrs():
     return out
 
 
+_SIB = {}
+
+
+def _sibling_trees(path):
+    """parsed sibling modules (same directory, tests excluded) of the module at `path`"""
+    d = os.path.dirname(path)
+    key = (d, os.path.basename(path))
+    if key not in _SIB:
+        out = []
+        try:
+            names = sorted(os.listdir(d))
+        except OSError:
+            names = []
+        for fn in names:
+            if fn.endswith(".py") and fn != os.path.basename(path) and not fn.startswith("test_"):
+                try:
+                    with open(os.path.join(d, fn), "r", encoding="utf-8", errors="replace") as f:
+                        out.append(ast.parse(f.read()))
+                except (OSError, SyntaxError):
+                    pass
+        _SIB[key] = out
+    return _SIB[key]
+
+
 _PURE_CALLS = {"len", "int", "str", "max", "min", "abs", "bool", "float", "round"}
 
 
@@ -738,14 +762,100 @@ class Evolve:
         self.count = 0
 
     def run(self):
+        self.super_calls()
         self.gen_loops()
         if self.base_fn is not None:
             self.new_constants()
             self.new_parameters()
+            self.new_attr_constants()
             self.statistics()
         if self.count:
             ast.fix_missing_locations(self.tree)
         return self.count
+
+    # -- super()
+    def super_calls(self):
+        """In a class with exactly one base, `super().m(a)` / `super(C, self).m(a)` inside a method whose first
+        parameter is `self` is the call `Base.m(self, a)` (single inheritance: the next class in the MRO is the base)."""
+        for cls in [x for x in ast.walk(self.tree) if isinstance(x, ast.ClassDef)]:
+            if len(cls.bases) != 1 or not isinstance(cls.bases[0], (ast.Name, ast.Attribute)) or cls.keywords:
+                continue
+            for m in [x for x in cls.body if isinstance(x, ast.FunctionDef)]:
+                if not m.args.args or m.args.args[0].arg != "self" or m.decorator_list:
+                    continue
+                if any(isinstance(x, ast.Name) and x.id == "self" and isinstance(x.ctx, (ast.Store, ast.Del)) for x in ast.walk(m)):
+                    continue
+                for c in [x for x in ast.walk(m) if isinstance(x, ast.Call)]:
+                    f = c.func
+                    if isinstance(f, ast.Attribute) and isinstance(f.value, ast.Call) and isinstance(f.value.func, ast.Name) \
+                            and f.value.func.id == "super" and not f.value.keywords:
+                        sa = f.value.args
+                        if sa and not (len(sa) == 2 and isinstance(sa[0], ast.Name) and sa[0].id == cls.name
+                                       and isinstance(sa[1], ast.Name) and sa[1].id == "self"):
+                            continue
+                        f.value = _clone(cls.bases[0])
+                        c.args.insert(0, ast.Name(id="self", ctx=ast.Load()))
+                        self.count += 1
+
+    # -- attributes introduced later that only ever hold one constant
+    def new_attr_constants(self):
+        """An attribute that did not exist at the pinned commit, stored exactly once - in `__init__`, as `self.a = K`
+        or `self.a = kwargs.get("a", K)` with K a constant and no call anywhere in the toolkit passing the keyword - and
+        stored nowhere else (this module, sibling modules, setattr) holds K in every object the toolkit creates: its
+        loads through `self` are replaced by K (a later-added option left at the default that reproduces the pinned
+        behaviour)."""
+        battrs = baseline_attrs()
+        if battrs is None or not self.path:
+            return
+        sibs = _sibling_trees(self.path)
+        for cls in [x for x in self.tree.body if isinstance(x, ast.ClassDef)]:
+            init = next((m for m in cls.body if isinstance(m, ast.FunctionDef) and m.name == "__init__"), None)
+            if init is None:
+                continue
+            kwname = init.args.kwarg.arg if init.args.kwarg else None
+            for st in list(init.body):
+                if not (isinstance(st, ast.Assign) and len(st.targets) == 1 and isinstance(st.targets[0], ast.Attribute)
+                        and isinstance(st.targets[0].value, ast.Name) and st.targets[0].value.id == "self"):
+                    continue
+                a = st.targets[0].attr
+                if a in battrs:
+                    continue
+                v, key = st.value, None
+                if isinstance(v, ast.Call) and isinstance(v.func, ast.Attribute) and v.func.attr == "get" and kwname \
+                        and isinstance(v.func.value, ast.Name) and v.func.value.id == kwname and len(v.args) == 2 \
+                        and isinstance(v.args[0], ast.Constant) and isinstance(v.args[0].value, str) and isinstance(v.args[1], ast.Constant):
+                    key, const = v.args[0].value, v.args[1]
+                elif isinstance(v, ast.Constant):
+                    const = v
+                else:
+                    continue
+                if const.value is not None and not isinstance(const.value, (bool, int, str)):
+                    continue
+                ok = True
+                for t in [self.tree] + sibs:
+                    for n in ast.walk(t):
+                        if isinstance(n, ast.Attribute) and n.attr == a and isinstance(n.ctx, (ast.Store, ast.Del)) and n is not st.targets[0]:
+                            ok = False
+                        elif isinstance(n, ast.Constant) and n.value in (a, key) and n.value is not None and not (key and n is v.args[0]):
+                            ok = False          # setattr(obj, "a", ...) / {"a": ...} / kwargs["a"]
+                        elif isinstance(n, ast.keyword) and (n.arg is not None and n.arg in (a, key)):
+                            ok = False          # Class(..., a = value)
+                        elif isinstance(n, ast.Name) and n.id == "__dict__" or isinstance(n, ast.Attribute) and n.attr == "__dict__":
+                            ok = False
+                if not ok:
+                    continue
+                me = self
+
+                class R(ast.NodeTransformer):
+                    def visit_Attribute(self_, n):
+                        self_.generic_visit(n)
+                        if n.attr == a and isinstance(n.ctx, ast.Load) and isinstance(n.value, ast.Name) and n.value.id == "self":
+                            me.count += 1
+                            return ast.copy_location(_clone(const), n)
+                        return n
+                for m in [x for x in cls.body if isinstance(x, ast.FunctionDef)]:
+                    R().visit(m)
+                    _Simplify().visit(m)
 
     # -- generator-expression loops
     def gen_loops(self):
@@ -1097,6 +1207,7 @@ class Inliner:
         # candidates: new module-level functions and new methods (by class)
         self.funcs = {}
         self.methods = {}
+        self.props = {}
         self.foreign = {}        # method name -> FunctionDef of a later-introduced expression helper of a sibling module
         if path and self.base is not None:
             d_ = os.path.dirname(path)
@@ -1152,6 +1263,18 @@ class Inliner:
                             m.name.startswith("__") and m.name.endswith("__")):
                         if not any(isinstance(d, ast.Name) and d.id == "property" for d in m.decorator_list):
                             self.methods.setdefault(m.name, []).append((st.name, m))
+                        elif len(m.decorator_list) == 1 and len(m.args.args) == 1 and m.args.args[0].arg == "self" \
+                                and m.name not in (baseline_attrs() or {m.name}):
+                            # a read-only property introduced later (no setter can exist under a brand-new name
+                            # without a second definition, which the duplicate test below excludes)
+                            self.props.setdefault(m.name, []).append((st.name, m))
+        defs_ = {}
+        for n_ in ast.walk(tree):
+            if isinstance(n_, ast.FunctionDef):
+                defs_[n_.name] = defs_.get(n_.name, 0) + 1
+        stored_ = {n_.attr for n_ in ast.walk(tree) if isinstance(n_, ast.Attribute) and isinstance(n_.ctx, (ast.Store, ast.Del))}
+        self.props = {k: v[0] for k, v in self.props.items() if len(v) == 1 and defs_.get(k) == 1 and k not in stored_
+                      and _expr_form(v[0][1]) is not None}
 
     def common_attr_names(self):
         """names that `obj.name(...)` may mean without being a later-introduced helper: attribute names in use at the
@@ -1201,7 +1324,7 @@ class Inliner:
         return None
 
     def run(self):
-        if not self.funcs and not self.methods and not self.foreign:
+        if not self.funcs and not self.methods and not self.foreign and not self.props:
             if self.base is not None:
                 for fd in [n for n in ast.walk(self.tree) if isinstance(n, ast.FunctionDef)]:
                     self.propagate_attr_aliases(fd)
@@ -1336,6 +1459,7 @@ class Inliner:
         cands = [(None, fd) for fd in self.funcs.values()]
         for lst in self.methods.values():
             cands += lst
+        cands += list(self.props.values())
         for owner, fd in cands:
             name = fd.name
             refs = 0
@@ -1374,6 +1498,17 @@ class Inliner:
                 me.count += 1
                 fd._inlined_into = True
                 return ast.copy_location(_Sub(m).visit(_clone(e)), c)
+
+            def visit_Attribute(self, n):
+                self.generic_visit(n)
+                if isinstance(n.ctx, ast.Load) and n.attr in me.props and isinstance(n.value, ast.Name) \
+                        and n.value.id not in me.modnames and me.props[n.attr][1] is not fd:
+                    # read of a later-introduced property: its (expression) body with self bound to the receiver
+                    e = _expr_form(me.props[n.attr][1])
+                    me.count += 1
+                    fd._inlined_into = True
+                    return ast.copy_location(_Sub({"self": ast.Name(id=n.value.id, ctx=ast.Load())}).visit(_clone(e)), n)
+                return n
 
             def visit_FunctionDef(self, n):
                 return n if n is not fd else self.generic_visit(n)
